@@ -75,7 +75,7 @@ func (x *Exec) calleeContract(c *ssa.CallCommon) (string, *FuncContract) {
 
 var purePkgPrefixes = []string{"strings.", "strconv.", "fmt.", "errors.", "time.", "math.", "math/rand.", "math/rand/v2.", "bytes.", "unicode.", "unicode/utf8.",
 	"path.", "path/filepath.", "net/url.", "net/netip.", "net.", "encoding/", "crypto/", "hash.", "context.", "log/slog.", "log.", "regexp.", "os.", "io.", "sync.", "sync/atomic.",
-	"net/http.", "net/textproto.", "mime.", "slices.", "maps.", "cmp.", "runtime.", "reflect.", "go.opentelemetry.io/", "google.golang.org/", "sort.Strings", "sort.SearchStrings", "sort.Ints", "bufio.", "io/fs.", "syscall.", "os/signal.", "os/exec.", "container/"}
+	"net/http.", "net/textproto.", "mime.", "slices.", "maps.", "cmp.", "runtime.", "reflect.", "go.opentelemetry.io/", "google.golang.org/", "sort.Strings", "sort.SearchStrings", "sort.Ints", "bufio.", "io/fs.", "syscall.", "os/signal.", "os/exec.", "container/", "database/sql."}
 
 // isPureExtern: callee outside the repository whose effects do not touch modelled heap state
 // (results are havoced; pointer-to-local arguments are havoced).
@@ -142,6 +142,15 @@ func (x *Exec) execCallWith(st *State, c *ssa.CallCommon, args []*Val, fnVal *Va
 func (x *Exec) execCallInner(st *State, c *ssa.CallCommon, args []*Val, fnVal *Val, instr ssa.Value, pos token.Pos) (*Val, error) {
 	if b, ok := c.Value.(*ssa.Builtin); ok && !c.IsInvoke() {
 		return x.execBuiltin(st, b.Name(), c, args, pos)
+	}
+	// locals whose address was boxed into an interface may be written by any callee
+	for al := range x.escaped {
+		if cur, ok := st.cells[al]; ok && isSMTVal(cur) {
+			et := al.Type().(*types.Pointer).Elem()
+			nv := x.havocVal(et, "esc."+al.Comment)
+			x.assume(st, x.typeFacts(nv, et))
+			st.cells[al] = nv
+		}
 	}
 	key := x.calleeKey(c)
 	// a closure value whose function is statically known
